@@ -8,21 +8,21 @@ def isRep : Variant → Bool
   | .asIs => false
   | .repaired => true
 
-/-! ### the variant model is the shared model for `asIs` -/
+/-! ### the variant model is the shared model for `repaired` (the code since /repo f955162) -/
 
-theorem addToPathV_asIs (ops : List Int) (ml : Option Nat) (x l r : Int) :
-    addToPathV .asIs ops ml x l r = addToPath ops ml x l r := by
+theorem addToPathV_repaired (ops : List Int) (ml : Option Nat) (x l r : Int) :
+    addToPathV .repaired ops ml x l r = addToPath ops ml x l r := by
   unfold addToPathV addToPath
-  simp only [and_true]
+  simp only [Bool.not_eq_eq_eq_not, Bool.not_true]
   cases (pathAppend ops ml x).fst.getLast? <;> rfl
 
-theorem feedV_asIs (l r : Int) (ml : Option Nat) (s : List Int) : ∀ (ops : List Int) (k : Nat),
-    feedV .asIs l r ml ops s k = feed l r ml ops s k := by
+theorem feedV_repaired (l r : Int) (ml : Option Nat) (s : List Int) : ∀ (ops : List Int) (k : Nat),
+    feedV .repaired l r ml ops s k = feed l r ml ops s k := by
   induction s with
   | nil => intro ops k; simp [feedV, feed]
   | cons x t ih =>
     intro ops k
-    simp only [feedV, feed, addToPathV_asIs]
+    simp only [feedV, feed, addToPathV_repaired]
     cases h : addToPath ops ml x l r with
     | none => rfl
     | some p => simp only [ih]
